@@ -1,5 +1,6 @@
 import Driver.Lapper
 import BedVerif.Spec.Rec
+import BedVerif.Lemmas.FastBedgraph
 /-!
 Driver handlers for C07, C08, C13, C14.
 -/
@@ -172,30 +173,19 @@ def handleC08 (inp obs : List String) : Verdict :=
     | _ => let out ← many pBG; pure (some out)).run obs
   match parsed, pobs with
   | some (xs, _), some (o, _) =>
-    -- LARGE inputs (more than 3000 records): the model and the full checker are quadratic. The clauses of the spec that
-    -- speak about the output alone (non-empty, sorted, non-overlapping, MAXIMAL: touching neighbours carry different values)
-    -- are evaluated in full; cover and value are evaluated at a sample of 600 of the breakpoints (first, last, evenly spaced)
+    -- LARGE inputs (more than 3000 records): the model and the Boolean checker are quadratic. The expected output is
+    -- `fastBedgraph'` (per chromosome: four merge sorts and one linear sweep), PROVED to be the unique list satisfying the six
+    -- clauses of the spec: `BedgraphSpec xs out ↔ out = fastBedgraph' xs` (Lemmas/FastBedgraph.lean)
     if xs.length > 3000 then
       match o with
       | none => { kind := "specfail", nontrivial := true, classes := ["large"], detail := "implementation panicked on sorted non-empty input" }
       | some out =>
-        let xr := xs.map BG.toRec
-        let orr := out.map BG.toRec
-        let shape := out.all (fun o => o.start < o.stop) && sortedRecsB orr &&
-          (out.zip (out.drop 1)).all (fun ab => ab.1.chrom != ab.2.chrom || ab.1.stop ≤ ab.2.start)
-        let maximal := (out.zip (out.drop 1)).all (fun ab => !(ab.1.chrom == ab.2.chrom && ab.1.stop == ab.2.start) || ab.1.value != ab.2.value)
-        let pts := (recPoints xr ++ recPoints orr).toArray
-        let step := pts.size / 400 + 1
-        let sample := ((List.range pts.size).filter (fun i => i < 100 || i + 100 ≥ pts.size || i % step == 0)).map (fun i => pts.getD i default)
-        let values := sample.all (fun cp =>
-          coveredByB xr cp.1 cp.2 == coveredByB orr cp.1 cp.2 &&
-          out.all (fun o => !(o.toRec.cov cp.1 cp.2) || o.value == sumAtB xs cp.1 cp.2))
-        if !shape then { kind := "specfail", nontrivial := true, classes := ["large"], detail := s!"{xs.length} records in, {out.length} out: output not non-empty / sorted / non-overlapping" }
-        else if !maximal then
-          let bad := (out.zip (out.drop 1)).find? (fun ab => ab.1.chrom == ab.2.chrom && ab.1.stop == ab.2.start && ab.1.value == ab.2.value)
-          { kind := "specfail", nontrivial := true, classes := ["large"], detail := s!"{xs.length} records in, {out.length} out: two touching output records carry the same value: {showBGs (match bad with | some ab => [ab.1, ab.2] | none => [])}" }
-        else if !values then { kind := "specfail", nontrivial := true, classes := ["large"], detail := s!"{xs.length} records in, {out.length} out: cover or value differs from the pointwise sum at a sampled breakpoint" }
-        else { kind := "ok", nontrivial := true, classes := ["large"] }
+        let want := fastBedgraph' xs
+        if out == want then { kind := "ok", nontrivial := true, classes := ["large"] }
+        else
+          let k := ((List.range (min out.length want.length)).find? (fun i => out.toArray.getD i default != want.toArray.getD i default)).getD (min out.length want.length)
+          { kind := "specfail", nontrivial := true, classes := ["large"],
+            detail := s!"{xs.length} records in, {out.length} out, the run-length encoded pointwise sum has {want.length}; first difference at index {k}: got {showBGs ((out.drop k).take 2)}, expected {showBGs ((want.drop k).take 2)}" }
     else
     let mgs := match groupsOf BG.toRec xs with | .ok g => g | .panic => []
     let nontrivial := xs.length ≥ 2 && mgs.length ≥ 2 && mgs.any (fun g => g.length ≥ 2)
